@@ -35,7 +35,7 @@ from ..explore import Chooser
 from ..sim.gateway import GW_ADDR, Gateway
 from ..vloop import texc
 
-Q_EVENTS = ["next-timer", "bus-frame", "user-send", "user-stop", "server-disconnect", "+0.5s"]
+Q_EVENTS = ["next-timer", "bus-frame", "user-send", "user-stop", "server-disconnect", "+0.5s", "user-start-again"]
 ORDER = ["main", "exec", "conn"]
 
 
@@ -56,7 +56,7 @@ def make_threaded(kind: str, family: str, steps: int, order: str = "main-first")
         viols: list[tuple[str, str]] = []
         events: list[Any] = []
         with DualWorld() as w:
-            st: dict[str, Any] = {"next_channel": 7, "connects": 0, "chan": None, "gw_seq": 0, "log": [], "acked": [], "gw": None, "sent_cemi": []}
+            st: dict[str, Any] = {"next_channel": 7, "connects": 0, "chan": None, "gw_seq": 0, "log": [], "acked": [], "gw": None, "sent_cemi": [], "open": set()}
 
             def on_conn(lp: Any) -> None:
                 gw = Gateway(lp)
@@ -76,11 +76,13 @@ def make_threaded(kind: str, family: str, steps: int, order: str = "main-first")
                     st["next_channel"] += 1
                     st["chan"] = chan
                     st["gw_seq"] = 0
+                    st["open"].add(chan)
                     gw.send(gw.connect_response(chan, tcp=tcp))
                 elif isinstance(body, ConnectionStateRequest):
                     gw.send(ConnectionStateResponse(body.communication_channel_id))
                 elif isinstance(body, DisconnectRequest):
                     st["log"].append((now, "DisconnectRequest"))
+                    st["open"].discard(body.communication_channel_id)
                     gw.send(DisconnectResponse(body.communication_channel_id))
                 elif isinstance(body, TunnellingRequest):
                     st["log"].append((now, "TunnellingRequest", body.sequence_counter))
@@ -154,9 +156,21 @@ def make_threaded(kind: str, family: str, steps: int, order: str = "main-first")
                     elif ev == "user-stop":
                         user["stop_called"] = w.now
                         tasks.append(w.main.create_task(do_stop(), name="harness-stop"))
+                    elif ev == "user-start-again":
+                        # start() on the running interface: refused, and the running connection is not disturbed
+                        async def again() -> None:
+                            try:
+                                await xknx.knxip_interface.start()
+                            except Exception as exc:  # noqa: BLE001
+                                events.append((round(w.now, 3), f"second start() raised {type(exc).__name__}"))
+                            else:
+                                events.append((round(w.now, 3), "second start() returned"))
+
+                        tasks.insert(1, w.main.create_task(again(), name="harness-start-again"))
                     elif ev == "server-disconnect":
                         if gw is not None and gw.tr is not None and not gw.tr.closed and st["chan"] is not None:
                             gw.send(DisconnectRequest(st["chan"]))
+                            st["open"].discard(st["chan"])
 
                 def check_cb() -> None:
                     for a, b in zip(cb_log, cb_log[1:]):
@@ -202,9 +216,16 @@ def make_threaded(kind: str, family: str, steps: int, order: str = "main-first")
                     exc = texc(tasks[0]) if tasks[0].done() else None
                     viols.append(("threaded:start-does-not-complete", f"start() {'raised ' + repr(exc) if exc else 'still pending'}; events={events} log={st['log']}"))
                     ok = False
+                def check_quiescent() -> None:
+                    state = xknx.connection_manager.state
+                    itf = xknx.knxip_interface._interface  # noqa: SLF001
+                    if state is XknxConnectionState.CONNECTED and user["stop_called"] is None and (itf is None or getattr(itf, "communication_channel", None) is None):
+                        viols.append(("threaded:connected-without-connection", f"state CONNECTED at a quiescent point with interface {'absent' if itf is None else 'without channel'}; events={events}"))
+
                 step = 0
                 while ok and step < steps:
                     step += 1
+                    check_quiescent()
                     ch.state((xknx.connection_manager.state.name, user["stop_called"] is not None, user["stopped"] is not None, len(received), user["sends"], len(w.main.live_tasks())))
                     if user["stop_called"] is not None:
                         opts = ["next-timer"]
@@ -252,6 +273,8 @@ def make_threaded(kind: str, family: str, steps: int, order: str = "main-first")
                             ok = settle()
                         gw = st["gw"]
                         late = gw.raw_log[user["wire_at_stop"]:] if gw is not None else []
+                        if st["open"]:
+                            viols.append(("threaded:tunnel-left-open-at-the-gateway", f"stop() returned but the gateway was never asked to close channel(s) {sorted(st['open'])}; events={events} log={st['log']}"))
                         if late:
                             viols.append(("threaded:sent-after-stop", f"{len(late)} frames written after stop() returned: {[r.hex() for _, r in late][:3]}; events={events}"))
                         for lp in w.loops():
